@@ -35,6 +35,7 @@ func outDir(t *testing.T) string {
 
 type streamOut struct {
 	ops, impl []string
+	oracle    []string
 	stats     map[string]int
 	cases     int
 }
@@ -42,6 +43,9 @@ type streamOut struct {
 func (s *streamOut) add(w *World, stats map[string]int) {
 	s.ops = append(s.ops, w.Ops...)
 	s.impl = append(s.impl, w.Impl...)
+	for _, o := range w.Oracle {
+		s.oracle = append(s.oracle, fmt.Sprintf("%s case=%d", o, s.cases))
+	}
 	for k, v := range stats {
 		s.stats[k] += v
 	}
@@ -57,6 +61,7 @@ func (s *streamOut) write(t *testing.T, name string) {
 	}
 	must(os.WriteFile(filepath.Join(d, name+".ops"), []byte(strings.Join(s.ops, "\n")+"\n"), 0o644))
 	must(os.WriteFile(filepath.Join(d, name+".impl"), []byte(strings.Join(s.impl, "\n")+"\n"), 0o644))
+	must(os.WriteFile(filepath.Join(d, name+".oracle"), []byte(strings.Join(s.oracle, "\n")+"\n"), 0o644))
 	keys := make([]string, 0, len(s.stats))
 	for k := range s.stats {
 		keys = append(keys, k)
@@ -84,3 +89,26 @@ func TestStreamPacket(t *testing.T) {
 	}
 	out.write(t, "packet")
 }
+
+func runTransferStream(t *testing.T, name string, mt bool) {
+	seed := uint64(envInt("VERIF_SEED", 1))
+	cases := envInt("VERIF_CASES", 6)
+	nops := envInt("VERIF_OPS", 60)
+	out := &streamOut{stats: map[string]int{}}
+	for i := 0; i < cases; i++ {
+		r := &Rng{s: seed*1000003 + uint64(i)*7919 + 17}
+		n := 2 + r.Intn(3)
+		relay := n >= 3 && r.Chance(70)
+		w := NewWorld(t, n)
+		g := &TransferGen{w: w, r: r, stats: map[string]int{}, relay: relay, mt: mt}
+		g.Run(nops)
+		out.add(w, g.stats)
+	}
+	out.write(t, name)
+}
+
+// TestStreamNft generates the NFT-transfer correspondence stream.
+func TestStreamNft(t *testing.T) { runTransferStream(t, "nft", false) }
+
+// TestStreamMt generates the multi-token-transfer correspondence stream.
+func TestStreamMt(t *testing.T) { runTransferStream(t, "mt", true) }
